@@ -10,3 +10,5 @@ open Photon.Sync
 #print axioms C04_shutdown_bound
 #print axioms C04_no_overdue_sleeper
 #print axioms reachable_inv
+#print axioms Photon.IntrLog.C04_mv_never_invented
+#print axioms Photon.IntrLog.C04_mv_never_stale
